@@ -1037,6 +1037,83 @@ func (g *c03ProgGen) postfixBase(d int) string {
 	return "( " + g.expr(d-1) + " )"
 }
 
+// ---- bracket-kind swaps
+//
+// A valid token list in which ONE closing bracket is replaced by a closing bracket of another kind (or one opening
+// bracket by another opening bracket): the bracket COUNTS of such an input can still pair up - f ( ]  [ ) - which no
+// single deletion or insertion produces.  It must be rejected.  Swaps at an EMPTY pair (the opening bracket directly
+// followed by the closing one: empty argument lists, method calls without arguments, empty list and map literals) come
+// first.
+type c03Swap struct {
+	pos   int
+	to    c03Tok
+	empty bool
+}
+
+var c03Openers = []c03Tok{{Typ: c03ttOpen, Img: "("}, {Typ: c03ttOpenBracket, Img: "["}, {Typ: c03ttOpenCurly, Img: "{"}}
+var c03Closers = []c03Tok{{Typ: c03ttClose, Img: ")"}, {Typ: c03ttCloseBracket, Img: "]"}, {Typ: c03ttCloseCurly, Img: "}"}}
+
+func c03BracketKind(img string) (open, close bool) {
+	switch img {
+	case "(", "[", "{":
+		return true, false
+	case ")", "]", "}":
+		return false, true
+	}
+	return false, false
+}
+
+// imgs: the images of the tokens; isBracket[i]: token i is a bracket token (not a string or identifier spelled like one)
+func c03BracketSwaps(imgs []string, isBracket func(i int) bool) []c03Swap {
+	var out []c03Swap
+	kind := func(i int) (bool, bool) {
+		if i < 0 || i >= len(imgs) || !isBracket(i) {
+			return false, false
+		}
+		return c03BracketKind(imgs[i])
+	}
+	for i := range imgs {
+		o, c := kind(i)
+		switch {
+		case c:
+			po, _ := kind(i - 1)
+			for _, k := range c03Closers {
+				if k.Img != imgs[i] {
+					out = append(out, c03Swap{pos: i, to: k, empty: po})
+				}
+			}
+		case o:
+			_, nc := kind(i + 1)
+			for _, k := range c03Openers {
+				if k.Img != imgs[i] {
+					out = append(out, c03Swap{pos: i, to: k, empty: nc})
+				}
+			}
+		}
+	}
+	return out
+}
+
+// the first n swaps: those at an empty pair first (closing before opening), the others after them
+func (r *Rng) c03PickSwaps(sw []c03Swap, n int) []c03Swap {
+	r.Shuffle(len(sw), func(i, j int) { sw[i], sw[j] = sw[j], sw[i] })
+	rank := func(x c03Swap) int {
+		_, c := c03BracketKind(x.to.Img)
+		switch {
+		case x.empty && c:
+			return 0
+		case x.empty:
+			return 1
+		}
+		return 2
+	}
+	sort.SliceStable(sw, func(i, j int) bool { return rank(sw[i]) < rank(sw[j]) })
+	if n < len(sw) {
+		sw = sw[:n]
+	}
+	return sw
+}
+
 // ---- disguised operators
 
 type c03Dis struct {
@@ -1277,6 +1354,20 @@ func (cr *c03Runner) corpus() {
 		"a + \"+\"", "a plus '*'", "a \"+\" (b)", "f('*')", "[a \"*\" b]", "a.m(b '+' c)", "a[1 \"+\" 2]"} {
 		cr.run(&c03Case{Table: t3, Text: s, Kind: 1, Note: "corpus: string literal / quoted identifier spelling an operator or alias in operator position"})
 	}
+	// an EMPTY argument list / list literal closed by the wrong KIND of bracket, the rest balanced (bracket counts pair up:
+	// not reachable by one deletion or insertion)
+	t4 := &c03Table{Ops: []string{"+", "*", "^"}, Unary: []string{"-"}, Alias: map[string]string{}, Idents: append(append([]c03Ident{}, c03BaseIdents...), c03Ident{"g", "func"})}
+	for _, s := range []string{"f(]", "a.g(]", "[)", "a+f(]*2", "g([))", "-f(]^2", "g([),f())", "g([],f(])", "[f(],[]]", "[f(),[)]", "f(a)[1].g(]",
+		"f[)", "f{)", "f(}", "[}", "a.g[)", "f(a]", "[a,b)", "f(a,]", "(a+b]", "a[1)"} {
+		cr.run(&c03Case{Table: t4, Text: s, Kind: 1, Note: "corpus: one bracket replaced by a bracket of another kind"})
+	}
+	if cr.vp != nil {
+		vops, vun, _, _ := cr.vp.VerifParseConfig()
+		vt := &c03Table{Ops: vops, Unary: vun, Value: true, Alias: map[string]string{}}
+		for _, s := range []string{"let b=[); b", "let b=x.size(]; b", "func h(n) sin(]; h(1)", "{)", "{]", "[}", "let b={a:[)}; b", "x->list(]"} {
+			cr.run(&c03Case{Table: vt, Text: s, Kind: 3, Note: "corpus: one bracket replaced by a bracket of another kind (full grammar)"})
+		}
+	}
 	for _, s := range []string{"a * - b * c", "(a", "a)", "a b", "a *", "* a", "f(a,,b)", "f(a b)", "a[1", "a.", "a.(b)", "(a,b)", "a.m(", "[a,b", "()", "a - - b", "-", ""} {
 		cr.run(&c03Case{Table: t2, Text: s, Kind: 1, Note: "corpus: malformed or boundary input"})
 	}
@@ -1285,7 +1376,7 @@ func (cr *c03Runner) corpus() {
 func cmdC03(seed int64, tier, outDir string) {
 	r := NewRng(seed)
 	sum := NewSummary("C03", seed, tier)
-	sum.Rule = "random operator tables (1..16 binary operators from a pool of 43 spellings with prefix overlaps, 0..3 prefix operators of which some are also binary incl. the highest level, optional text aliases) x expression trees of depth <= 6 (binary, prefix, member, method call, call, index, list) x {minimal, random-redundant, full} parenthesisation, parsed by the real parser; plus tables built through the generator API (funcGen AddOp / AddOpImpl / AddOpPure / AddSimpleOp / AddOpBehind with every existing operator or \"\" as anchor, AddUnary / AddUnaryFunc, then GetParser): the parser's operator order must be the promised one (Go and Coq: build_table) and programs mixing the new operator with its anchor and neighbours must group by the promised table; plus single-token deletions/insertions of the minimal rendering and generated/mutated programs of the full grammar over the value-language table. Non-trivial = a (table, tree) pair whose tree uses >= 3 distinct priority levels and whose minimal and full parenthesisation differ; distinct by table and fully parenthesised text"
+	sum.Rule = "random operator tables (1..16 binary operators from a pool of 43 spellings with prefix overlaps, 0..3 prefix operators of which some are also binary incl. the highest level, optional text aliases) x expression trees of depth <= 6 (binary, prefix, member, method call, call, index, list) x {minimal, random-redundant, full} parenthesisation, parsed by the real parser; plus tables built through the generator API (funcGen AddOp / AddOpImpl / AddOpPure / AddSimpleOp / AddOpBehind with every existing operator or \"\" as anchor, AddUnary / AddUnaryFunc, then GetParser): the parser's operator order must be the promised one (Go and Coq: build_table) and programs mixing the new operator with its anchor and neighbours must group by the promised table; plus single-token deletions/insertions of the minimal rendering, BRACKET-KIND SWAPS (one closing bracket replaced by a closing bracket of another kind, one opening bracket by another opening bracket - at empty argument lists / empty list and map literals first, where the bracket counts still pair up) of the minimal rendering and of valid generated programs, and generated/mutated programs of the full grammar over the value-language table. Non-trivial = a (table, tree) pair whose tree uses >= 3 distinct priority levels and whose minimal and full parenthesisation differ; distinct by table and fully parenthesised text"
 	cw := NewCaseWriter(outDir, "From P2 Require Import Base.Prelude Lex.Token Syn.Ast Syn.Parse Syn.Render Run.C03Run.", "c03_case", "c03_id", "c03_im", "c03_is", 300)
 	cr := &c03Runner{sum: sum, cw: cw}
 
@@ -1325,10 +1416,11 @@ func cmdC03(seed int64, tier, outDir string) {
 
 	cr.corpus()
 
-	tables, exprs, muts, progs, fgTables := 30, 5, 10, 120, 10
+	tables, exprs, muts, progs, fgTables, swaps, progSwaps := 30, 5, 10, 120, 10, 3, 2
 	if tier == "thorough" {
-		tables, exprs, muts, progs, fgTables = 500, 12, 40, 2500, 200
+		tables, exprs, muts, progs, fgTables, swaps, progSwaps = 500, 12, 40, 2500, 200, 40, 16
 	}
+	rs := NewRng(seed + 300) // the bracket-swap family draws from a generator of its own: the other streams do not depend on it
 	tables *= optBoost
 	progs *= optBoost
 	insertable := func(t *c03Table) []c03Tok {
@@ -1474,6 +1566,26 @@ func cmdC03(seed int64, tier, outDir string) {
 				sum.Count("mutation", d.kind)
 				cr.run(&c03Case{Table: t, Text: r.c03Text(t, d.toks), Kind: 1, Note: d.note})
 			}
+			// bracket-kind swaps: one closing (opening) bracket replaced by a closing (opening) bracket of another kind
+			imgs := make([]string, len(minToks))
+			for i, k := range minToks {
+				imgs[i] = k.Img
+			}
+			sw := c03BracketSwaps(imgs, func(i int) bool { return minToks[i].Typ >= c03ttOpen && minToks[i].Typ <= c03ttCloseCurly })
+			nsw := swaps
+			if tier == "thorough" && len(sw) < 400 {
+				nsw = len(sw)
+			}
+			for _, x := range rs.c03PickSwaps(sw, nsw) {
+				nt := append([]c03Tok{}, minToks...)
+				nt[x.pos] = x.to
+				kind := "bracket-swap"
+				if x.empty {
+					kind = "bracket-swap at an empty pair"
+				}
+				sum.Count("mutation", kind)
+				cr.run(&c03Case{Table: t, Text: rs.c03Text(t, nt), Kind: 1, Note: fmt.Sprintf("%s: token %d (%s) replaced by %s", kind, x.pos, minToks[x.pos].Img, x.to.Img)})
+			}
 		}
 	}
 
@@ -1516,6 +1628,18 @@ func cmdC03(seed int64, tier, outDir string) {
 			cr.run(&c03Case{Table: vt, Text: text, Kind: 3, WithMap: withMap, Note: "generated program with an unknown identifier or AddMap"})
 		} else {
 			cr.run(&c03Case{Table: vt, Text: text, Kind: 2, Note: "generated program"})
+			// bracket-kind swaps of the valid program (tokens are separated by blanks; string literals contain no brackets)
+			pf := strings.Fields(text)
+			for _, x := range rs.c03PickSwaps(c03BracketSwaps(pf, func(int) bool { return true }), progSwaps) {
+				ms := append([]string{}, pf...)
+				ms[x.pos] = x.to.Img
+				kind := "program bracket-swap"
+				if x.empty {
+					kind = "program bracket-swap at an empty pair"
+				}
+				sum.Count("mutation", kind)
+				cr.run(&c03Case{Table: vt, Text: strings.Join(ms, " "), Kind: 3, Note: fmt.Sprintf("%s: token %d (%s) replaced by %s", kind, x.pos, pf[x.pos], x.to.Img)})
+			}
 		}
 		// token-level mutations
 		fs := strings.Fields(text)
